@@ -45,6 +45,7 @@ func init() {
 			ruleListHeaderReadCompletely(c, "R11")
 			rulePreflightNotAgainstRootUnion(c, "R12")
 			ruleResponseHeadersAreNotWiped(c, "R13")
+			ruleReadersWriteNothing(c, "R14", "router")
 			ruleHeaderNameCase(c, "R12")
 		},
 	})
@@ -68,6 +69,7 @@ func init() {
 			ruleEmptyListElementsIgnored(c, "R11")
 			ruleNodeMethodSetReadOnce(c, "R12")
 			ruleResponseHeadersAreNotWiped(c, "R13")
+			ruleReadersWriteNothing(c, "R14", "router")
 		},
 	})
 }
